@@ -1,1 +1,27 @@
-fn main() { eprintln!("not implemented"); std::process::exit(2); }
+//! p-server: bounded-exhaustive checks of the server-level properties
+//! C01 (no panic), C02 (well-formed responses), C03 (header/question echo),
+//! C04 (size limits and truncation).
+//!
+//!     p-server <ID> <quick|thorough> [--replay FILE]
+
+mod c01;
+mod c02;
+mod c03;
+mod c04;
+mod common;
+mod drive;
+mod families;
+mod refmodel;
+mod zones;
+
+fn main() {
+    let ctx = qvlib::Ctx::from_args(&["C01", "C02", "C03", "C04"]);
+    qvlib::reftsig::self_test();
+    match ctx.id.as_str() {
+        "C01" => c01::run(ctx),
+        "C02" => c02::run(ctx),
+        "C03" => c03::run(ctx),
+        "C04" => c04::run(ctx),
+        _ => unreachable!(),
+    }
+}
